@@ -37,7 +37,9 @@ MEMS = ("1B", "999KB", "1MB", "0.5GB", "1gb", "2GB", "1024MB", "1.5TB", "0.001PB
 TIMES = ("00:30", "59:59", "1:00:00", "2:00:00", "10:00:00", "09:59:59", "100:00:00", "1:00:00:00", "0:23:59:59",
          "2:00:00:00", "24:00:00")
 BAD_MEMS = ("", "GB", "2 GB", "2GiB", "-1GB", "1.GB", ".5GB", "2GB\n", "1e3MB", "2G")
-BAD_TIMES = ("", "1", "1:2", "1:2:3", "10:0:00", "aa:bb", "10:00\n", "1:00:00:00:00", "-1:00:00", "1:000:00")
+BAD_TIMES = ("", "1", "1:2", "1:2:3", "10:0:00", "aa:bb", "10:00\n", "1:00:00:00:00", "-1:00:00", "1:000:00",
+             # other separators than ':' (e.g. the scheduler's own D-HH:MM:SS): not one of the stated formats
+             "1-00:00:00", "2-12:30:00", "1-30:00", "1.00:00:00", "1 00:00:00", "00:30:", ":30:00")
 
 
 def registry():
